@@ -969,7 +969,17 @@ class _MissingImportFinder:
 
         def visit_MatchMapping(self, node:ast.MatchMapping):
             logger.debug("visit_MatchMapping(%r)", node)
-            return self.generic_visit(node)
+            self.generic_visit(node)
+            # 'case {"k": v, **rest}' binds ``rest``, which is a plain string
+            # and not a node.
+            if node.rest is not None:
+                self._visit_Store(node.rest)
+
+        def visit_MatchStar(self, node:ast.MatchStar):
+            # 'case [first, *rest]' binds ``rest`` (None for '*_').
+            logger.debug("visit_MatchStar(%r)", node)
+            if node.name is not None:
+                self._visit_Store(node.name)
 
         def visit_MatchAs(self, node:MatchAs):
             logger.debug("visit_MatchAs(%r)", node)
